@@ -21,11 +21,32 @@ EXPECTED_PROBES = ['ping_between_fragments', 'many_pings_one_read',
                    'ping_in_reply_read', 'ping_then_close_same_read',
                    'auto_pong_off', 'ping_after_client_close',
                    'pong_write_failed', 'app_write_after_pong_checked',
-                   'violation_behind_pings', 'compression_negotiated']
+                   'violation_behind_pings', 'compression_negotiated',
+                   'threaded_close_vs_pong']
+
+
+TSLOT = 3000
+_CLOSE = {'op': 'close', 'code': 1000, 'reason': 'bye'}
+TBASES = [
+    {'name': 'close_vs_auto_pong', 'threads': [[_CLOSE]], 'loop': ['ping']},
+    {'name': 'close_text_vs_two_pings',
+     'threads': [[_CLOSE], [{'op': 'send_text', 'text': 'T2-0-' + 'q' * 80}]],
+     'loop': ['ping', 'ping']},
+]
+_TINFO = {}
+
+
+def _tinfo(b):
+    from . import _threads as T
+    if b not in _TINFO:
+        _TINFO[b] = T.default_steps(TBASES[b])
+    return _TINFO[b]
 
 
 def plan(tier):
-    return [('seeded', 12000 if tier == 'quick' else 250000)]
+    return [('seeded', 12000 if tier == 'quick' else 250000),
+            ('threaded_sweep', len(TBASES) * TSLOT * 2),
+            ('threaded_random', 300 if tier == 'quick' else 30000)]
 
 
 def _ping(rng):
@@ -33,7 +54,76 @@ def _ping(rng):
     return {'kind': 'ping', 'hex': S.rand_bytes(rng, n).hex()}
 
 
+def _threaded_case(family, i, rng):
+    import copy
+    from . import _threads as T
+    if family == 'threaded_sweep':
+        senders_first = i >= len(TBASES) * TSLOT
+        i %= len(TBASES) * TSLOT
+        b = i // TSLOT
+        n, nt = _tinfo(b)
+        slot = i % TSLOT
+        step, who = slot // (nt + 1), slot % (nt + 1)
+        if step < 2 or step > n + 40:
+            return None
+        tid = who if who < nt else T.threadsim.CLOCK
+        case = copy.deepcopy(TBASES[b])
+        pts = [[step, tid]]
+        if senders_first:
+            pts = [[1, 1]] + pts
+        case['schedule'] = {'kind': 'preempt', 'points': pts}
+    else:
+        case = copy.deepcopy(TBASES[rng.randrange(len(TBASES))])
+        case['schedule'] = {'kind': 'random', 'seed': rng.getrandbits(32),
+                            'stay': rng.choice([0.5, 0.8, 0.95])} \
+            if rng.random() < 0.6 else \
+            {'kind': 'pct', 'seed': rng.getrandbits(32),
+             'd': rng.choice([1, 2, 3]), 'horizon': 500}
+    case['threaded'] = True
+    return case
+
+
+def _execute_threaded(case):
+    """A Close written by an application thread races the event loop's
+    automatic Pong: after the Close no Pong may follow, before it every Ping
+    is answered."""
+    from . import _threads as T
+    res = Result()
+    sc, tr, sched = T.run(case)
+    w = tr.world
+    res.stats.update(w.stats)
+    res.sim_us = w.now
+    res.digest = T.digest(tr, sched)
+    if sched.error is not None:
+        raise RuntimeError('ThreadSim harness error: %r' % (sched.error,))
+    if tr.hang:
+        res.bad('C14/threaded/hang', tr.hang)
+    if tr.escaped:
+        res.bad('C14/threaded/escaped', '%s %s' % tr.escaped)
+    wire = oracle.Wire(w.socks[-1])
+    ops = [f.opcode for f in wire.frames]
+    res.stats['probe:threaded_close_vs_pong'] += 1
+    if peer.OP_CLOSE in ops and not wire.incomplete:
+        k = ops.index(peer.OP_CLOSE)
+        if peer.OP_PONG in ops[k + 1:]:
+            res.bad('C14/threaded/pong_after_close',
+                    'wire %s | %s' % ([peer.OPNAME.get(o, o) for o in ops],
+                                      T.site_signature(sched)))
+        npings = sum(1 for e in tr.events if e.name == 'ping' and
+                     e.wire_len <= wire.frames[k].start)
+        npongs = ops[:k].count(peer.OP_PONG)
+        if npongs > len([e for e in tr.events if e.name == 'ping']):
+            res.bad('C14/threaded/too_many_pongs', '%r' % ops)
+    res.nontrivial = peer.OP_CLOSE in ops
+    res.sig = 'thr|%s|%s' % (case['name'], T.site_signature(sched))
+    res.sample = {'base': case['name'], 'schedule': case.get('schedule'),
+                  'wire': [peer.OPNAME.get(o, o) for o in ops]}
+    return res
+
+
 def make_case(family, i, rng, tier):
+    if family.startswith('threaded'):
+        return _threaded_case(family, i, rng)
     items = []
     for _ in range(rng.choice([1, 2, 4, 8, 14])):
         r = rng.random()
@@ -120,6 +210,8 @@ def build(case, with_fault=True):
 
 
 def execute(case):
+    if case.get('threaded'):
+        return _execute_threaded(case)
     res = Result()
     sc, enc = build(case)
     tr = netsim.run(sc)
